@@ -33,7 +33,7 @@ def _gen_child(rng, idx):
     ni = rng.randint(1, 3)
     cd = G.rand_circuit(rng, ni, rng.randint(1, 5), max_fanin=3, name=f"child{idx}", in_prefix="a", gate_prefix="y", n_outputs=rng.randint(1, 2), p_input_output=0.0, p_const=0.1, p_const_output=0.0)
     if rng.random() < 0.25:
-        cd = G.add_blackboxes(rng, cd, 1, bbdefs=[{"name": "leaf", "inputs": ["p"], "outputs": ["o"]}], prefix="s")
+        cd = G.add_blackboxes(rng, cd, rng.choice([1, 1, 2, 3]), bbdefs=[{"name": "leaf", "inputs": ["p"], "outputs": ["o"]}], prefix="s")
     return cd
 
 
@@ -103,8 +103,16 @@ def gen(rng, ctx):
             for o in couts:
                 if rng.random() < p_conn and free_holes:
                     conns[o] = free_holes.pop(rng.randrange(len(free_holes)))
+            if kind == "sub" and cins and couts and rng.random() < 0.1:
+                # a child input fed from an output of the SAME instance (the net exists only once the child is spliced in)
+                conns[rng.choice(cins)] = f"{name}_{rng.choice(couts)}"
+                fed_back = True
+            else:
+                fed_back = False
             if kind == "sub":
                 ops.append({"op": "add_subcircuit", "child": ci, "name": name, "connections": conns})
+                if fed_back:
+                    ops[-1]["own_output_feeds_input"] = True
                 if rng.random() < 0.15:
                     # io kept: child inputs stay primary inputs (nothing may drive them), child outputs stay marked
                     ops[-1]["strip_io"] = False
@@ -303,6 +311,8 @@ def check(case, ctx):
                     elif pn.types != before_net.types or pn.edges() != before_net.edges() or pn.bbs != before_net.bbs:
                         ctx.violation("rejected_call_changed_parent", f"{what}: the refused add_subcircuit left nodes/edges behind: {sorted(set(pn.types) - set(before_net.types))[:4]}")
                     return
+            if op.get("own_output_feeds_input"):
+                ctx.count("child_input_fed_from_own_output")
             if len(conns) < len(knet.inputs() | knet.outputs):
                 ctx.count("partial_connections")
             if knet.bbs:
@@ -405,5 +415,5 @@ def check(case, ctx):
 
 
 def gates(counters, table, tier):
-    need = ["conflicting_connections_probe", "swapped_direction_fill_probe", "strip_result_edit_probe", "rejected_call_probe", "strip_str_ignore_with_substring_pins", "child_with_feedthrough_port", "instance_name_is_prefix_of_another", "op:add_subcircuit", "op:add_blackbox", "op:fill_blackbox", "op:strip_blackboxes", "partial_connections", "child_with_nested_blackbox", "fill_after_other_calls", "fill_immediately", "same_child_instantiated_twice", "strip_with_ignore", "strip_with_blackboxes", "functional_checks", "add_subcircuit_strip_io_false", "strip_ignore_pins_as:tuple", "strip_ignore_pins_as:set", "net_named_like_an_ignored_pin", "output_onto_constant_probe:x", "output_onto_constant_probe:0"]
+    need = ["conflicting_connections_probe", "swapped_direction_fill_probe", "strip_result_edit_probe", "rejected_call_probe", "strip_str_ignore_with_substring_pins", "child_with_feedthrough_port", "instance_name_is_prefix_of_another", "op:add_subcircuit", "op:add_blackbox", "op:fill_blackbox", "op:strip_blackboxes", "partial_connections", "child_with_nested_blackbox", "fill_after_other_calls", "fill_immediately", "same_child_instantiated_twice", "strip_with_ignore", "strip_with_blackboxes", "functional_checks", "add_subcircuit_strip_io_false", "strip_ignore_pins_as:tuple", "strip_ignore_pins_as:set", "net_named_like_an_ignored_pin", "output_onto_constant_probe:x", "output_onto_constant_probe:0", "child_input_fed_from_own_output"]
     return [f"{k} seen {counters.get(k, 0)} times" for k in need if counters.get(k, 0) < 5]
